@@ -714,8 +714,14 @@ class Explorer:
             self._drf[node.id] = d
         return d
 
-    def kill(self, facts: frozenset, node: Node) -> frozenset:
+    def kill(self, facts: frozenset, node: Node, raised: bool = False) -> frozenset:
         e = self.eff(node)
+        if raised and node.kind == "stmt" and isinstance(node.node, (ast.Assign, ast.AnnAssign)):
+            # `x = <expr>` whose evaluation raised: the name was not bound, what was known about x still holds
+            tg = node.node.targets if isinstance(node.node, ast.Assign) else [node.node.target]
+            if len(tg) == 1 and isinstance(tg[0], ast.Name) and tg[0].id in e.names \
+                    and not any(isinstance(x, ast.NamedExpr) for x in ast.walk(node.node)):
+                e = Effects(names=e.names - {tg[0].id}, attrs=e.attrs, all_self=e.all_self, suspends=e.suspends)
         if not (e.names or e.attrs or e.all_self or e.suspends):
             return facts
         out = []
@@ -839,7 +845,7 @@ class Explorer:
                                 continue
                         f2 = f2c
                 else:
-                    f2 = self.kill(facts, node)
+                    f2 = self.kill(facts, node, raised=is_exc)
                     if not is_exc:
                         g = self._gen.get(node.id)
                         if g is None:
